@@ -258,10 +258,22 @@ class SqlalchemyRender:
                         col0 = sa.nullslast(col0)
                     order_by.append(col0)
 
+            frame = {}
+            if t.modifier:
+                # frame clause: <ROWS|RANGE> BETWEEN <bound> AND <bound>
+                bounds = {'UNBOUNDED PRECEDING': None, 'CURRENT ROW': 0, 'UNBOUNDED FOLLOWING': None}
+                match = re.match(r'^(ROWS|RANGE)\s+BETWEEN\s+(UNBOUNDED\s+PRECEDING|CURRENT\s+ROW)\s+AND\s+(CURRENT\s+ROW|UNBOUNDED\s+FOLLOWING)$',
+                                 t.modifier.strip(), flags=re.IGNORECASE)
+                if match is None:
+                    raise NotImplementedError(f'Window frame: {t.modifier}')
+                unit, start, end = [' '.join(i.upper().split()) for i in match.groups()]
+                frame['rows' if unit == 'ROWS' else 'range_'] = (bounds[start], bounds[end])
+
             col = sa.over(
                 func,
                 partition_by=partition,
-                order_by=order_by
+                order_by=order_by,
+                **frame
             )
 
             if t.alias:
